@@ -3,6 +3,7 @@ import Reduino.Lang.InF
 import Reduino.Lemmas.C01
 import Reduino.Lang.Tr2
 import Reduino.Lemmas.C01p
+import Reduino.GenOb.Ops
 /-
   C01 — Reject-or-preserve: firmware behaves as the Python source says (core language).
 
@@ -12,6 +13,10 @@ import Reduino.Lemmas.C01p
   loop() passes.  It is FALSE of the current transpiler outside the fragment `InF` (see the `…_counterexample`
   theorems and known findings K01a–K01j); proved part: `C01_partial`, all programs of `InF`, all N.
   C `int` overflow is undefined behaviour: the conclusion allows the C run to report `overflow` instead.
+  Expression language of the fragment (W1): int/bool values, `+ - *`, bitwise `& | ^` (Python's two's-complement
+  semantics on unbounded ints; `& | ^` of two bools is a bool), unary minus, comparisons, and/or/not, conditional
+  expressions.  The operator tokens `Render` prints are tied to the transpiler's `_BIN`/`_UN`/`_CMP` tables by the
+  obligations of `GenOb/Ops.lean`.
 -/
 namespace Reduino.Props.C01
 open Reduino.Lang
@@ -109,6 +114,15 @@ example :
     let p : Prog := { pre := .seq (.assign "a" (.int 2)) (.assign "f" (.cmp .lt (.int 1) (.int 2))),
                       body := some (.seq (.aug "a" .add (.int 1)) (.ifs (.and (.var "f") (.cmp .gt (.var "a") (.int 3))) (.write (.var "a")) .skip)) }
     InF p = true ∧ (∃ c, tr p = .ok c) ∧ Py.run p 3 50 = .ok [.write 4, .write 5] := by
+  intro p
+  exact ⟨by decide, ⟨_, rfl⟩, by rfl⟩
+
+/-- non-vacuity (W1, stage 1): bitwise operators on negative ints and on bools, `^=`, accepted and run -/
+example :
+    let p : Prog := { pre := .seq (.assign "a" (.neg (.int 7))) (.seq (.assign "f" (.cmp .lt (.int 1) (.int 2)))
+                        (.write (.bin .add (.bin .band (.var "f") (.bool true)) (.bin .bor (.var "a") (.int 12))))),
+                      body := some (.seq (.aug "a" .bxor (.int 12)) (.write (.bin .band (.var "a") (.int 255)))) }
+    InF p = true ∧ (∃ c, tr p = .ok c) ∧ Py.run p 2 50 = .ok [.write (-2), .write 245, .write 249] := by
   intro p
   exact ⟨by decide, ⟨_, rfl⟩, by rfl⟩
 
